@@ -329,6 +329,41 @@ def decoder_param_records():
     return recs
 
 
+def omitted_side_records():
+    """Code parameters with sides left out (the documented rule: L_y and L_z default to
+    L_x), as a dict and as a list, for a 2-D and every cheap 3-D class: the code built
+    has exactly the requested sides, the others equal to L_x."""
+    recs = []
+    for cname in ('Toric2DCode', 'Toric3DCode', 'Planar3DCode', 'RotatedPlanar3DCode', 'XCubeCode',
+                  'RhombicPlanarCode'):
+        dim = codes.dimension(cname)
+        for given in ([3], [2, 3], [3, 2], [2, 2, 3])[: (2 if dim == 2 else 4)]:
+            if len(given) > dim:
+                continue
+            want = list(given) + [given[0]] * (dim - len(given))
+            if not codes.in_family(cname, tuple(want)):
+                continue
+            for form in ('dict', 'list'):
+                par = dict(zip(['L_x', 'L_y', 'L_z'], given)) if form == 'dict' else list(given)
+                rec = {'kind': 'sides', 'label': f'{cname}{par}', 'expected': want, 'built': [], 'recorded': [],
+                       'raised': ''}
+                spec = {'comments': '', 'ranges': {
+                    'label': 's', 'code': {'name': cname, 'parameters': [par]},
+                    'error_model': {'name': 'PauliErrorModel', 'parameters': [{'r_x': 0.2, 'r_y': 0.3, 'r_z': 0.5}]},
+                    'decoder': {'name': 'BeliefPropagationOSDDecoder'}, 'error_rate': [0.05]}}
+                try:
+                    with contextlib.redirect_stdout(io.StringIO()):
+                        batch = read_input_dict(spec, '/nonexistent/out.json', verbose=False)
+                    sim = batch._simulations[0]
+                    rec['built'] = [int(x) for x in sim.code.size]
+                    cp = sim._inputs['code']['parameters']
+                    rec['recorded'] = [int(cp[k]) for k in ('L_x', 'L_y', 'L_z')[:dim]]
+                except Exception as ex:
+                    rec['raised'] = f'{type(ex).__name__}: {ex}'[:160]
+                recs.append(rec)
+    return recs
+
+
 def run(tier):
     t0 = time.time()
     v = common.Verdict('C13')
@@ -340,6 +375,7 @@ def run(tier):
     n_reg = len(recs) - n_spec
     recs += rebuild_records()
     recs += decoder_param_records()
+    recs += omitted_side_records()
     for j, r in enumerate(recs):
         r['id'] = j
         r['_cost'] = len(r.get('observed', [])) ** 2 + 5
@@ -351,6 +387,8 @@ def run(tier):
                 key = f"C13:registry:{r['registry']}[{r['name']}]->{r['resolved']}"
             elif r['kind'] == 'rebuild':
                 key = f"C13:rebuild:{r['label']}"
+            elif r['kind'] == 'sides':
+                key = f"C13:omitted-sides:{r['label']}:" + ','.join(cl)
             elif r['kind'] == 'decoder_params':
                 if r['raised'].startswith('MACHINERY'):
                     raise common.MachineryError(r['raised'])
